@@ -226,7 +226,7 @@ Section Oracles.
     | _, CScalar CNil => Some Gt
     | SInt x, CScalar (CInt y) | SInt x, CScalar (CInt64 y) => Some (Z.compare x y)
     | SInt x, CScalar (CF64 y) => Some (dy_cmp (round53 x) y)
-    | SF64 x, CScalar (CInt y) | SF64 x, CScalar (CInt64 y) => Some (dy_cmp x (round53 y))
+    | SF64 x, CScalar (CInt y) | SF64 x, CScalar (CInt64 y) => Some (dy_cmp x (Dy y 0))  (* compareFloatToInt: exact *)
     | SF64 x, CScalar (CF64 y) => Some (dy_cmp x y)
     | SBool x, CScalar (CBool y) => Some (Bool.compare x y)
     | SStr x, CScalar (CStr y) => Some (String.compare x y)
